@@ -784,6 +784,48 @@ def frames_through_the_reader(ctx):
                                f"the reader delivered {len(g)} message(s) for this one line" + ("" if not g else f": {g[0][:200]}"))
 
 
+def frames_through_the_event_stream(ctx):
+    """'decoding what either backend encoded gives back the value' - also when the encoding travels as ONE event of a legacy
+    SSE stream whose bytes the network cuts wherever it likes, inside a multi-byte character included (the orjson back end
+    writes non-ASCII as raw UTF-8, the stdlib back end as \\uXXXX escapes: both must come back as the same value)."""
+    import c12
+    import chuk_mcp.protocol.fast_json as FJ
+    texts = ["é", "a\u2028b", "\U0001F600", "żółć 日本語 😀", "x" * 30 + "€"]
+    msgs = [{"jsonrpc": "2.0", "method": "notifications/message", "params": {"level": "info", "data": t, "k": i}} for i, t in enumerate(texts)]
+    frames = []
+    saved = FJ.HAS_ORJSON
+    try:
+        for backend in ([True, False] if saved else [False]):
+            FJ.HAS_ORJSON = backend
+            for m in msgs:
+                frames.append(("orjson" if backend else "stdlib", m, FJ.dumps(m).encode("utf-8")))
+    finally:
+        FJ.HAS_ORJSON = saved
+
+    async def run_all():
+        out = []
+        for backend, m, body in frames:
+            ev = b"event: message\ndata: " + body + b"\n\n"
+            inner = [i for i in range(1, len(ev)) if ev[i] & 0xC0 == 0x80]          # positions INSIDE a multi-byte character
+            cuts = (inner[:6] + inner[-6:]) if inner else [len(ev) // 2]
+            for c in sorted(set(cuts)):
+                o = await c12.parse_real([ev[:c], ev[c:]])
+                out.append((backend, m, c, [a[1] for a in o["acts"] if a[0] == 1]))
+        return out
+    for backend, m, c, datas in anyio.run(run_all):
+        case = {"backend": backend, "message": m, "event_cut_at_byte": c}
+        ctx.case(case, nontrivial=True)
+        ctx.count("event-stream-frame:" + backend)
+        ctx.spec_total += 1
+        try:
+            got = [json.loads(d) for d in datas]
+        except Exception as e:                                  # noqa: BLE001
+            got = ["<undecodable: %s>" % type(e).__name__]
+        if got != [m]:
+            ctx.spec_violation(f"encoding-does-not-decode-to-itself-over-the-event-stream:{backend}", case,
+                               f"the event-stream reader handed on {json.dumps(got, ensure_ascii=True)[:300]}")
+
+
 def decoding_is_fresh(ctx):
     """'decoding what either backend encoded gives back the value' - every time: the same text decoded again after the first
     result was written into gives the value again, not the written-into object (both back ends, str and bytes)."""
@@ -893,6 +935,7 @@ def run(ctx):
     very_deep_probe(ctx)
     frames_through_the_reader(ctx)
     decoding_is_fresh(ctx)
+    frames_through_the_event_stream(ctx)
     other_encoders(ctx)
     ctx.exhaustive = False
     if ctx.thorough:
@@ -914,6 +957,11 @@ def run(ctx):
 
 def replay(ctx, data):
     _c = data.get("case", {})
+    if isinstance(_c, dict) and "event_cut_at_byte" in _c:
+        frames_through_the_event_stream(ctx)
+        for f in ctx.spec_fail:
+            print("REPRODUCED", f["class"], f["detail"][:200])
+        return 1 if ctx.spec_fail else 0
     if isinstance(_c, dict) and "encoder" in _c:
         other_encoders(ctx)
         for f in ctx.spec_fail:
